@@ -178,6 +178,9 @@ func (m *Machine) conv(dst, src types.Type, x Value) Value {
 		// []byte / []rune -> string
 		if db, ok := ud.(*types.Basic); ok && db.Info()&types.IsString != 0 {
 			s := x.([]Value)
+			if t, ok := m.textOfHandle(s); ok {
+				return t
+			}
 			eb, _ := us.Elem().Underlying().(*types.Basic)
 			buf := make([]byte, 0, len(s))
 			for _, e := range s {
